@@ -396,7 +396,7 @@ func TestTraverse(t *testing.T) {
 			c.Depth = i / 3 % 3
 			return c
 		}, checkTraverse)
-		vk.Run(t, name, vk.Opts{Quick: 3000, Thorough: 100000, NoCrumb: true}, func(t *rapid.T) travCase {
+		vk.Run(t, name, vk.Opts{Quick: 5000, Thorough: 100000, NoCrumb: true}, func(t *rapid.T) travCase {
 			classes := undClasses
 			if dir {
 				classes = dirClasses
